@@ -264,6 +264,10 @@ func rulePanicAssert(p *Prog, r *Report) {
 				pos := p.Pos(ta.Pos())
 				at, ok := atomOf(ta.X)
 				if !ok {
+					if why, safe := syncMapDiscipline(p, ta); safe {
+						r.Ok("R-PANIC-ASSERT", key, pos, why)
+						continue
+					}
 					r.Bad("R-PANIC-ASSERT", key, pos, "unchecked type assertion on a value that is not a struct's interface field: no discipline to check")
 					continue
 				}
@@ -374,4 +378,83 @@ func rulePanicAssert(p *Prog, r *Report) {
 
 func init() {
 	register("C06", "", rulePanicAssert)
+}
+
+// syncMapDiscipline: x.(T) where x is the value loaded from a package-level sync.Map and every value
+// ever stored into that map (Store, LoadOrStore, Swap, CompareAndSwap) has static type T.
+func syncMapDiscipline(p *Prog, ta *ssa.TypeAssert) (string, bool) {
+	ex, ok := ta.X.(*ssa.Extract)
+	if !ok || ex.Index != 0 {
+		return "", false
+	}
+	call, ok := ex.Tuple.(*ssa.Call)
+	if !ok {
+		return "", false
+	}
+	f := call.Call.StaticCallee()
+	if f == nil || (extName(f) != "(*sync.Map).Load" && extName(f) != "(*sync.Map).LoadOrStore") {
+		return "", false
+	}
+	g, ok := call.Call.Args[0].(*ssa.Global)
+	if !ok {
+		return "", false
+	}
+	stores := 0
+	for fn := range p.AllFns {
+		if !p.IsRepoFn(fn) || fn.Blocks == nil {
+			continue
+		}
+		for _, b := range fn.Blocks {
+			for _, ins := range b.Instrs {
+				c, ok := ins.(ssa.CallInstruction)
+				if !ok {
+					continue
+				}
+				cf := c.Common().StaticCallee()
+				if cf == nil || len(c.Common().Args) == 0 || c.Common().Args[0] != ssa.Value(g) {
+					// the map escapes if its address is used any other way; checked below
+					continue
+				}
+				var val ssa.Value
+				switch extName(cf) {
+				case "(*sync.Map).Store", "(*sync.Map).LoadOrStore", "(*sync.Map).Swap":
+					val = c.Common().Args[2]
+				case "(*sync.Map).CompareAndSwap":
+					val = c.Common().Args[3]
+				case "(*sync.Map).Load", "(*sync.Map).Delete", "(*sync.Map).LoadAndDelete", "(*sync.Map).Range", "(*sync.Map).CompareAndDelete", "(*sync.Map).Clear":
+					continue
+				default:
+					return "", false
+				}
+				mi, ok := val.(*ssa.MakeInterface)
+				if !ok || !types.Identical(mi.X.Type(), ta.AssertedType) {
+					return "", false
+				}
+				stores++
+			}
+		}
+	}
+	// the global must not be used other than as the receiver of these calls
+	for fn := range p.AllFns {
+		if !p.IsRepoFn(fn) || fn.Blocks == nil {
+			continue
+		}
+		for _, b := range fn.Blocks {
+			for _, ins := range b.Instrs {
+				for _, op := range ins.Operands(nil) {
+					if *op != ssa.Value(g) {
+						continue
+					}
+					c, ok := ins.(ssa.CallInstruction)
+					if !ok || len(c.Common().Args) == 0 || c.Common().Args[0] != ssa.Value(g) || c.Common().StaticCallee() == nil {
+						return "", false
+					}
+				}
+			}
+		}
+	}
+	if stores == 0 {
+		return "", false
+	}
+	return fmt.Sprintf("value loaded from package-level sync.Map %s: all %d stores into it have static type %s", g.Name(), stores, ta.AssertedType), true
 }
